@@ -218,6 +218,9 @@ func (w *World) RunProbe(pkg, probe string, args []string) (out string, err erro
 	if result == nil && x.Cut > 0 {
 		return "CUT", nil // the case lies outside the encoded fragment (recorded cut): nothing to compare
 	}
+	if _, isO := result.(Opaque); isO {
+		return "CUT", nil // an explicitly unmodelled value (e.g. a format with flags): nothing to compare
+	}
 	str, ok := result.(Str)
 	if !ok {
 		return "", fmt.Errorf("probe returned %T", result)
